@@ -401,13 +401,34 @@ def evaluate(cases, rnd, ratios=(750,), multiline=True, variants=1):
                 src, pos = concretise(c["sheet"], rnd, multiline)
                 units.append({"ci": ci, "case": c, "src": src, "pos": pos, "ratio": ratio, "opts": opts_json(c["opt"], ratio)})
     vres = vlib.run_vh("css", [{"id": i, "src": u["src"], "opts": u["opts"]} for i, u in enumerate(units)])
+    # micro-syntax oracle (C08): the value of every unicode-range descriptor must denote the same range before and
+    # after, by cssparser's own UnicodeRange parser (an input the parser rejects has nothing to preserve)
+    import re
+    ur = re.compile(r"unicode-range\s*:([^;}]*)")
+    uq = []
+    for i, (u, r) in enumerate(zip(units, vres)):
+        if "unicode-range" in u["src"] and not r.get("panic"):
+            a = ur.findall(u["src"])
+            b = ur.findall(r.get("normal") or "")
+            if a and len(a) == len(b):
+                for x, y in zip(a, b):
+                    for part_in, part_out in zip(x.split(","), y.split(",")) if x.count(",") == y.count(",") else [(x, y)]:
+                        uq.append((i, part_in.strip(), part_out.strip()))
+    ures = vlib.run_vh("css", [{"id": k, "urange": t} for k, (_, a, b) in enumerate(uq) for t in (a, b)], jobs=1) if uq else []
+    urange_findings = {}
+    for k, (i, a, b) in enumerate(uq):
+        ra, rb = ures[2 * k].get("urange"), ures[2 * k + 1].get("urange")
+        if ra is not None and ra != rb:
+            urange_findings.setdefault(i, []).append(("urange", "normal", "unicode-range %r denotes %s, the output %r denotes %s" % (
+                a, "U+%X-%X" % tuple(ra), b, ("U+%X-%X" % tuple(rb)) if rb else "nothing (not a valid range)")))
     out = []
-    for u, r in zip(units, vres):
+    for ui, (u, r) in enumerate(zip(units, vres)):
         c = u["case"]
         rec = {"case": u["ci"], "src": u["src"], "opts": u["opts"], "findings": [], "panic": r.get("panic") or [], "normal": r.get("normal"), "low": r.get("low")}
         out.append(rec)
         if rec["panic"]:
             continue
+        rec["findings"] += urange_findings.get(ui, [])
         f1, ok1 = compare_output(c["normal"], r["ntok"], u["ratio"], "normal")
         f2, ok2 = compare_output(c["low"], r["ltok"], u["ratio"], "low")
         rec["findings"] += f1 + f2
